@@ -220,6 +220,12 @@ def run(ctx, chk):
             chk.ob("C04.no-use-after-release", f.name, bad is None, "%s:%d" % (f.file, f.line), fn=f.name, detail=det,
                    path=bad[1].block_lines() if bad else None)
     chk.floor("C04.no-use-after-release", "functions that call cbor_decref", nuaf, 8)
+    chk.rule("C04.blocks", "every raw allocator block (stack record, payload buffer, table) is attached / returned / handed over / freed "
+                           "exactly once on every path, so that nothing obtained through the allocator remains (shared with C06.blocks)")
+    from props.c06 import check_blocks
+    check_blocks(chk, "C04.blocks", prog, cache, floor=26)
+    chk.rule("C04.no-bypass", "no block is released through libc behind the installed allocator's back")
+    rules.check_no_bypass(chk, "C04.no-bypass", prog)
     chk.exhaustive = True
 
 
